@@ -36,7 +36,7 @@ def build_key(flavour, extra_defs=()):
     h = hashlib.sha256()
     _hash_tree(h, os.path.join(REPO, 'include'))
     _hash_tree(h, HARNESS, '*')
-    for p in ('pool.py', 'pooldef.py', 'build.py'):
+    for p in ('pool.py', 'pooldef.py', 'build.py', 'namesdef.py'):
         with open(os.path.join(VERIF, 'lib', p), 'rb') as f:
             h.update(f.read())
     h.update(flavour.encode())
@@ -82,13 +82,16 @@ def build(flavour='plain', extra_defs=(), verbose=False, include_dir=None):
         for name, text in files.items():
             with open(os.path.join(bdir, name), 'w') as f:
                 f.write(text)
+        import namesdef
+        with open(os.path.join(bdir, 'names_gen.cpp'), 'w') as f:
+            f.write(namesdef.gen_cpp())
         with open(os.path.join(bdir, 'types.json'), 'w') as f:
             json.dump(pool.types_json(types), f)
         inc = include_dir or os.path.join(REPO, 'include')
         cxx = os.environ.get('VERIF_CXX', 'g++')
         flags = ['-std=c++14', '-I' + inc, '-I' + HARNESS, '-I' + bdir, '-pthread', '-w'] + FLAVOURS[flavour] + list(extra_defs)
         srcs = sorted(glob.glob(os.path.join(HARNESS, '*.cpp')) + glob.glob(os.path.join(HARNESS, '*.cc')) +
-                      glob.glob(os.path.join(bdir, 'pool_*.cpp')))
+                      glob.glob(os.path.join(bdir, 'pool_*.cpp')) + [os.path.join(bdir, 'names_gen.cpp')])
         objs = []
 
         def compile_one(src):
